@@ -338,7 +338,9 @@ func NewModelSet(modules map[string]Model, submodules map[string]Submodule,
 		ms.rpcs[mod.Namespace()] = mod.Rpcs()
 		ms.notifications[mod.Namespace()] = mod.Notifications()
 		for _, chs := range mod.Choices() {
-			ms.addChoice(chs)
+			if err := ms.addChoice(chs); err != nil {
+				return nil, err
+			}
 		}
 	}
 
